@@ -176,6 +176,25 @@ def _root_field(term):
     return list(reversed(names)), variant
 
 
+def _variant_field_name(term):
+    """the field of the Operation variant a printed value is taken from: ((op as V).price).amount -> price"""
+    t = term
+    last = None
+    while isinstance(t, tuple) and t:
+        if t[0] == "field":
+            if isinstance(t[1], tuple) and t[1] and t[1][0] == "dc":
+                return t[2]
+            last = t[2]
+            t = t[1]
+        elif t[0] in ("some", "cast"):
+            t = t[1]
+        elif t[0] == "call" and len(t[2]) >= 1:
+            t = t[2][0]
+        else:
+            break
+    return None
+
+
 def writer_vs_grammar(ctx, rep):
     F, S = ctx.F, ctx.S
     g = Grammar(S["grammar"])
@@ -272,7 +291,8 @@ def writer_vs_grammar(ctx, rep):
                     continue
                 for h in holes:
                     names, var = _root_field(h.term)
-                    okf = target in names and (var in (None, vname))
+                    vf = _variant_field_name(h.term)
+                    okf = vf == target and (var in (None, vname))
                     rep.ob("R1", f"{vname}:{label}:{krule}→{target}", okf,
                            f"grammar position `{krule}` is read into `{target}` and the writer prints `{'.'.join(names)}` there" if okf else
                            f"grammar position `{krule}` is read into Operation::{vname}.{target} but the writer prints {show(h.term)[:70]} there: fields are swapped on a round trip",
